@@ -246,6 +246,7 @@ InPend(x, pend) ==
 BatchViol(x, batches) ==
   {"batch recovered with a hole or a missing tail" :
      i \in {i \in 1..Len(batches) :
+              ~batches[i].dead /\
               LET b == batches[i]
                   n == Len(b.recs)
                   present == IF x[b.q].a THEN {j \in 1..n : \E k \in 1..Len(x[b.q].recs) : x[b.q].recs[k] = b.recs[j]}
@@ -255,15 +256,19 @@ BatchViol(x, batches) ==
               IN present # {} /\ ~(\E k \in 1..n : present = k..n /\ \A j \in 1..(k - 1) : b.recs[j][1] <= b.tp)}}
 
 (* after a crash or damage the positions of lost batches are assigned again: a batch none of whose   *)
-(* records was recovered is dropped from the list, or a later record that happens to equal one of  *)
-(* its records (same position, both empty) would be read as a piece of it                          *)
+(* records was recovered is marked dead (BatchViol skips it; it still counts as appended for C08),  *)
+(* or a later record that happens to equal one of its records (same position, both empty) would be *)
+(* read as a piece of it                                                                           *)
 PruneBatches(batches, x) ==
-  SelectSeq(batches, LAMBDA b : x[b.q].a /\ \E j \in 1..Len(b.recs) : \E k \in 1..Len(x[b.q].recs) : x[b.q].recs[k] = b.recs[j])
+  [i \in 1..Len(batches) |->
+     LET b == batches[i] IN
+       IF x[b.q].a /\ \E j \in 1..Len(b.recs) : \E k \in 1..Len(x[b.q].recs) : x[b.q].recs[k] = b.recs[j]
+       THEN b ELSE [b EXCEPT !.dead = TRUE]]
 
 BatchOf(qm, call) ==
   LET qs == qm[call.q]
       start == AppendStart(qs, call)
-  IN [q |-> call.q, tp |-> -1, recs |-> [i \in 1..Len(call.batch) |-> <<start + i - 1, call.batch[i][1], call.batch[i][2]>>]]
+  IN [q |-> call.q, tp |-> -1, dead |-> FALSE, recs |-> [i \in 1..Len(call.batch) |-> <<start + i - 1, call.batch[i][1], call.batch[i][2]>>]]
 
 (* a truncate / delete issued on a queue legitimises the loss of leading records of its earlier batches *)
 TruncBatches(batches, call) ==
@@ -274,11 +279,13 @@ TruncBatches(batches, call) ==
           ELSE batches[i]]
   ELSE batches
 
-(* a COMPLETED delete ends the incarnation: its batches are forgotten (the next incarnation assigns the *)
+(* a COMPLETED delete ends the incarnation: its batches are marked dead (the next incarnation assigns the *)
 (* same positions again, and an empty record of it at the position of an empty record of an old batch *)
 (* would be read as a piece of that batch)                                                            *)
 DoneBatches(batches, call) ==
-  IF call.op = "delete" /\ call.q >= 0 THEN SelectSeq(batches, LAMBDA b : b.q # call.q) ELSE TruncBatches(batches, call)
+  IF call.op = "delete" /\ call.q >= 0
+  THEN [i \in 1..Len(batches) |-> IF batches[i].q = call.q THEN [batches[i] EXCEPT !.dead = TRUE] ELSE batches[i]]
+  ELSE TruncBatches(batches, call)
 
 CrashViol(r, c) ==
   IF r.out # "ok" THEN
@@ -338,7 +345,7 @@ DamageViol(r, c) ==
           \cup (IF r.cls = "dmgcrash" THEN
                   LET iq == r.inflight.q
                       irecs == [i \in 1..Len(r.inflight.recs) |-> <<r.inflight.recs[i][1], r.inflight.recs[i][2], r.inflight.recs[i][3]>>]
-                      c2 == [c EXCEPT !.batches = Append(@, [q |-> iq, tp |-> -1, recs |-> irecs])]
+                      c2 == [c EXCEPT !.batches = Append(@, [q |-> iq, tp |-> -1, dead |-> FALSE, recs |-> irecs])]
                       got == IF \E i \in 1..Len(r.st.qs) : r.st.qs[i].q = iq
                              THEN r.st.qs[CHOOSE i \in 1..Len(r.st.qs) : r.st.qs[i].q = iq].recs ELSE <<>>
                       \* a recovered record at a position of the torn batch, of that record's length, with another content
